@@ -1,4 +1,101 @@
-import GristModel.Recalc
+/-
+C06  Formula results do not depend on evaluation order.
+Model: GristModel/Recalc.lean.  Helper lemmas: GristProofs/Recalc*.lean (see the header of
+GristProps/C18.lean for `WFState`, `Good`, `Inv`, `DependsOnSelf`, `Ev.isCalc`).
+-/
+import GristProofs.RecalcExamples
+import GristProofs.RecalcCone
 namespace Grist.Recalc
-theorem placeholder_C06 : True := trivial
+
+/-- (V1) With a rank function on `deps`, any two complete recalculations (accepted runs of
+    eval/circ events ending with `dirty = []`) from the same state end in the same state: the same
+    value in every cell, whatever order the scheduler chose. -/
+theorem schedule_independent_acyclic {p : Prog} (hr : p.Respects) {n : Nat} {rank : Nat → Nat}
+    (hrk : Ranked p n rank) {st t1 t2 : State} {es1 es2 : List Ev}
+    (hw : WFState p n st) (hi : Inv p n st)
+    (c1 : ∀ e ∈ es1, e.isCalc = true) (c2 : ∀ e ∈ es2, e.isCalc = true)
+    (r1 : run p n st es1 = some t1) (r2 : run p n st es2 = some t2)
+    (q1 : t1.dirty = []) (q2 : t2.dirty = []) :
+    ∀ c, t1.σ c = t2.σ c := by
+  obtain ⟨i1, w1⟩ := inv_run hr es1 hw hi r1
+  obtain ⟨i2, w2⟩ := inv_run hr es2 hw hi r2
+  intro c
+  by_cases hc : c < n
+  · refine fixpoint_unique hr hw.deps_lt hrk ?_ (quiescent_fixpoint_ranked w1 i1 hrk q1)
+      (quiescent_fixpoint_ranked w2 i2 hrk q2) c hc
+    intro d _ hf
+    rw [calc_run_untouched es1 c1 r1 d (.inl hf), calc_run_untouched es2 c2 r2 d (.inl hf)]
+  · rw [calc_run_untouched es1 c1 r1 c (.inr (by omega)),
+      calc_run_untouched es2 c2 r2 c (.inr (by omega))]
+
+/-- … so the two final states are equal -/
+theorem schedule_independent_acyclic_state {p : Prog} (hr : p.Respects) {n : Nat}
+    {rank : Nat → Nat} (hrk : Ranked p n rank) {st t1 t2 : State} {es1 es2 : List Ev}
+    (hw : WFState p n st) (hi : Inv p n st)
+    (c1 : ∀ e ∈ es1, e.isCalc = true) (c2 : ∀ e ∈ es2, e.isCalc = true)
+    (r1 : run p n st es1 = some t1) (r2 : run p n st es2 = some t2)
+    (q1 : t1.dirty = []) (q2 : t2.dirty = []) : t1 = t2 := by
+  have hσ : t1.σ = t2.σ :=
+    funext (schedule_independent_acyclic hr hrk hw hi c1 c2 r1 r2 q1 q2)
+  cases t1; cases t2; simp_all
+
+/-- the diamond document evaluated in two different orders -/
+example : ∃ t1 t2, run diaProg 4 diaSt [.eval 1, .eval 2, .eval 3] = some t1 ∧
+    run diaProg 4 diaSt [.eval 2, .eval 1, .eval 3] = some t2 ∧ t1 = t2 :=
+  ⟨_, _, rfl, rfl, schedule_independent_acyclic_state (es1 := [.eval 1, .eval 2, .eval 3])
+    (es2 := [.eval 2, .eval 1, .eval 3]) diaProg_respects diaProg_ranked diaSt_wf
+    diaSt_inv (by decide) (by decide) rfl rfl (by decide) (by decide)⟩
+
+/-- a complete recalculation always exists, so (V1) is not vacuous for any well-formed state -/
+example {p : Prog} {n : Nat} {st : State} (hw : WFState p n st) :
+    ∃ es st', (∀ e ∈ es, e.isCalc = true) ∧ run p n st es = some st' ∧ st'.dirty = [] :=
+  complete_run_exists st.dirty.length st (Nat.le_refl _) hw
+
+/-! ### (V2) documents with cycles: the acyclic part is schedule independent -/
+
+/-- Without a rank function: two complete recalculations from the same state (with the invariant,
+    e.g. all formula cells dirty) agree on every cell whose dependency cone is acyclic
+    (`Hgt p k c`: all `deps`-paths from `c` have at most `k` edges). -/
+theorem schedule_independent_cone {p : Prog} (hr : p.Respects) {n : Nat} {st t1 t2 : State}
+    {es1 es2 : List Ev} (hw : WFState p n st) (hi : Inv p n st)
+    (c1 : ∀ e ∈ es1, e.isCalc = true) (c2 : ∀ e ∈ es2, e.isCalc = true)
+    (r1 : run p n st es1 = some t1) (r2 : run p n st es2 = some t2)
+    (q1 : t1.dirty = []) (q2 : t2.dirty = []) :
+    ∀ k c, Hgt p k c → c < n → t1.σ c = t2.σ c := by
+  obtain ⟨i1, _⟩ := inv_run hr es1 hw hi r1
+  obtain ⟨i2, _⟩ := inv_run hr es2 hw hi r2
+  refine cone_unique hr hw.deps_lt ?_ ?_ ?_
+  · intro d _ hf
+    rw [calc_run_untouched es1 c1 r1 d (.inl hf), calc_run_untouched es2 c2 r2 d (.inl hf)]
+  · intro c k hc hf hh
+    rcases inv_quiescent i1 q1 c hc hf with h | ⟨_, h⟩
+    · exact h
+    · exact absurd h (Hgt.not_dependsOnSelf k c hh)
+  · intro c k hc hf hh
+    rcases inv_quiescent i2 q2 c hc hf with h | ⟨_, h⟩
+    · exact h
+    · exact absurd h (Hgt.not_dependsOnSelf k c hh)
+
+/-- (V2) in particular they agree on every cell that does not reach a cycle; every other formula
+    cell is, in both, a fixpoint of its formula or a `circ` on a cycle (`quiescent_fixpoint`, C18). -/
+theorem schedule_independent_cyclic_partial {p : Prog} (hr : p.Respects) {n : Nat}
+    {st t1 t2 : State} {es1 es2 : List Ev} (hw : WFState p n st) (hi : Inv p n st)
+    (c1 : ∀ e ∈ es1, e.isCalc = true) (c2 : ∀ e ∈ es2, e.isCalc = true)
+    (r1 : run p n st es1 = some t1) (r2 : run p n st es2 = some t2)
+    (q1 : t1.dirty = []) (q2 : t2.dirty = []) :
+    ∀ c, c < n → reachesCycle p n c = false → t1.σ c = t2.σ c :=
+  fun c hc h => schedule_independent_cone hr hw hi c1 c2 r1 r2 q1 q2 n c
+    (hgt_of_not_reachesCycle hw.deps_lt hc h) hc
+
+/-- the document with a 2-cycle: cell 2 does not reach the cycle, and two different complete
+    schedules (which even break the cycle at different cells) agree on it -/
+example : reachesCycle cycProg 4 2 = false ∧
+    ∃ t1 t2, run cycProg 4 cycSt [.eval 2, .circ 0, .eval 1] = some t1 ∧
+      run cycProg 4 cycSt [.circ 1, .eval 0, .eval 2] = some t2 ∧
+      t1.dirty = [] ∧ t2.dirty = [] ∧ t1.σ 2 = t2.σ 2 := by
+  refine ⟨by decide, _, _, rfl, rfl, by decide, by decide, ?_⟩
+  exact schedule_independent_cyclic_partial (es1 := [.eval 2, .circ 0, .eval 1])
+    (es2 := [.circ 1, .eval 0, .eval 2]) cycProg_respects cycSt_wf cycSt_inv
+    (by decide) (by decide) rfl rfl (by decide) (by decide) 2 (by decide) (by decide)
+
 end Grist.Recalc
